@@ -11,8 +11,8 @@ MANIFEST = dict(
            "byte string ends in Ok or an error with all reads inside the buffer and all writes inside their "
            "destination iff every fixed-size destination is guarded (refuted for the unguarded addr copy, defect D2, "
            "witness addr_len=255), the three tables agree, receive/dispatch outcomes.  Tied to the code by running the "
-           "extracted model and m_msg.c (public API over a socketpair, ASan+UBSan, malloc wrapped) on >20k aimed cases "
-           "per run, comparing the result code and every struct member.", "7 C14"),
+           "extracted model and m_msg.c (public API over a socketpair, ASan+UBSan+LSan, malloc wrapped) on ~6k aimed cases "
+           "per quick run (~90k thorough), comparing the result code and every struct member.", "7 C14"),
     note="Trusted: Coq kernel+vm_compute, gen_facts probe, extraction (ExtrOcamlBasic), harness/driver glue. The field "
          "lists are read from the source by hand and tied by differential testing, not verified against the C text. "
          "Time-outs and I/O errors of the socket are environment (a stream is the bytes that arrive before EOF). "
@@ -194,6 +194,7 @@ def rnd_msg(rng, code, big=False):
     for n in NUMS:
         st[n] = rng.getrandbits(8) if n in U8S else rnd_u32(rng)
     st["type"], st["pkt_len"] = 0, 0
+    st["error_num"] = rng.choice([0, 0, st["error_num"]])     # success replies carry an error string too
     st["addr"] = rnd_bytes(rng, 4)
     for f in FIELDS[code]:
         if f[0] == "var":
@@ -254,8 +255,13 @@ def gen_cases(ctx):
     rng = ctx.rng
     cases = []          # (kind, line)
     add = lambda k, l: cases.append((k, l))
-    nmsg = 40 if ctx.thorough else 8
+    nmsg = 150 if ctx.thorough else 10
     z = fresh()
+    # 0. the replay of defect D2 (DESIGN.md Appendix A) and its neighbours: DEC_RSP with addr_len beyond the member
+    for k in (255, 5, 8, 9, 12, 13, 20, 104, 105, 128):
+        for tail in (True, False):
+            b = bytes(10) + bytes([k]) + b"A" * k + (bytes(28) if tail else b"")
+            add("d2-replay", R(0, MAXREQ, BIGHEAP, header(5, len(b)) + b, z if k == 255 else sentinel(rng)))
     # 1. generated messages of every type: send, and receive of the reference encoding (round trip)
     for code in (2, 3, 4, 5, 6):
         for i in range(nmsg * 3):
@@ -290,7 +296,7 @@ def gen_cases(ctx):
     add("send-bad", S(6, 0, BIGHEAP, st))          # sum wraps to a small positive int
     # 2. valid body truncated at each offset (header consistent with the truncated body, and header claiming all)
     for code in (2, 3, 4, 5, 6):
-        for i in range(3 if ctx.thorough else 2):
+        for i in range(12 if ctx.thorough else 2):
             st = rnd_msg(rng, code)
             if i == 0:
                 for f in FIELDS[code]:
@@ -304,7 +310,7 @@ def gen_cases(ctx):
                 add("short-stream", R(0, MAXREQ, BIGHEAP, header(code, len(body)) + body[:k], s0))
     # 3. each length field set to 0, 1, exact-1, exact+1, 255, 2^31-1, 2^31, 2^32-1
     for code in (2, 3, 4, 5, 6):
-        for i in range(6 if ctx.thorough else 3):
+        for i in range(30 if ctx.thorough else 3):
             st = rnd_msg(rng, code)
             body = ref_pack(code, st)
             for (off, w, exact) in len_field_offsets(code, st):
@@ -319,7 +325,7 @@ def gen_cases(ctx):
                         add("lenfield", R(0, MAXREQ, rng.choice([BIGHEAP, BIGHEAP, 1 << 12]), header(code, len(b2)) + b2, sentinel(rng)))
     # 4. every type code 0..255 x {random bytes of several lengths, a valid body of each real type}
     valid = {c: ref_pack(c, rnd_msg(rng, c)) for c in (2, 3, 4, 5, 6)}
-    for code in range(256):
+    for code in list(range(256)) * (4 if ctx.thorough else 1):
         for n in (0, 1, 10, 11, 12, 40, rng.randrange(0, 400)):
             b = rnd_bytes(rng, n)
             add("anycode-random", R(0, MAXREQ, BIGHEAP, header(code, n) + b, sentinel(rng)))
@@ -335,10 +341,15 @@ def gen_cases(ctx):
     good = header(4, 9) + struct.pack(">I", 5) + b"hello"
     for k in range(0, HDR + 1):
         add("hdr-short", R(0, MAXREQ, BIGHEAP, good[:k], sentinel(rng)))
-    for i in range(40):
-        h = bytearray(good)
-        h[rng.randrange(0, 5)] ^= 1 << rng.randrange(8)
-        add("hdr-bad", R(0, MAXREQ, BIGHEAP, bytes(h), sentinel(rng)))
+    for byte in range(5):                       # every single-bit defect of magic and version
+        for bit in range(8):
+            h = bytearray(good)
+            h[byte] ^= 1 << bit
+            add("hdr-bad", R(0, MAXREQ, BIGHEAP, bytes(h), sentinel(rng)))
+    for ver in list(range(0, 10)) + [127, 128, 255]:
+        add("hdr-bad", R(0, MAXREQ, BIGHEAP, header(4, 9, version=ver) + good[HDR:], sentinel(rng)))
+    for mg in (0, 1, MAGIC - 1, MAGIC + 1, MAGIC << 8, 0xffffffff):
+        add("hdr-bad", R(0, MAXREQ, BIGHEAP, header(4, 9, magic=mg) + good[HDR:], sentinel(rng)))
     for plen in (0, 8, 10, 1 << 20, (1 << 20) + 1, (1 << 31) - 1, 1 << 31, (1 << 32) - 1):
         for maxlen in (0, MAXREQ):
             add("hdr-pktlen", R(0, maxlen, BIGHEAP, header(4, plen) + struct.pack(">I", 5) + b"hello", sentinel(rng)))
@@ -363,7 +374,7 @@ def gen_cases(ctx):
     add("maxreq", R(0, MAXREQ, BIGHEAP, header(4, len(body2)) + body2, z))
     add("maxreq", R(4, 0, BIGHEAP, header(4, len(body2)) + body2, z))
     # 8. purely random streams
-    for i in range(2000 if ctx.thorough else 300):
+    for i in range(30000 if ctx.thorough else 300):
         n = rng.choice([0, 3, 11, 12, 20, 60, rng.randrange(0, 700)])
         b = bytearray(rnd_bytes(rng, n))
         if n >= HDR and rng.random() < 0.8:
@@ -516,7 +527,8 @@ def run(ctx):
     for k, _ in cases:
         dist[k] = dist.get(k, 0) + 1
     ctx.cov["input_distribution"] = dist
-    env0 = {"ASAN_OPTIONS": "detect_leaks=0:abort_on_error=0:exitcode=99:allocator_may_return_null=1"}
+    env0 = {"ASAN_OPTIONS": "detect_leaks=1:abort_on_error=0:exitcode=99:allocator_may_return_null=1"}
+    env_nl = {"ASAN_OPTIONS": "detect_leaks=0:abort_on_error=0:exitcode=99:allocator_may_return_null=1"}
     # the model first: it says where a write beyond a member is predicted
     rc2, mod, err2 = vlib.run_lines(["bash", "-c", "ulimit -s unlimited 2>/dev/null; exec " + oracle], lines, timeout=1800)
     if rc2 != 0 or len(mod) != len(lines):
@@ -526,13 +538,28 @@ def run(ctx):
     fault_set = set(fault_idx)
     batch = [i for i in range(len(lines)) if i not in fault_set]
     ctx.log("model ran %d cases; %d predicted writes beyond a member" % (len(lines), len(fault_idx)))
-    rc, impl_b, stderr = vlib.run_lines([exe], [lines[i] for i in batch], timeout=1800, env=env0)
+    rc, impl_b, stderr = (0, [], "") if not batch else \
+        vlib.run_lines([exe], [lines[i] for i in batch], timeout=1800, env=env0)
     ctx.log("implementation ran %d cases rc=%d" % (len(batch), rc))
     for l in lines:
         ctx.count(l)
     for i in (0, 1, len(lines) // 3, len(lines) // 2, len(lines) - 2):
         if 0 <= i < len(lines):
             ctx.sample(lines[i][:300])
+    if rc != 0 and len(impl_b) == len(batch) and "LeakSanitizer" in stderr:
+        # every case was answered; memory was lost on the way: find one case that leaks on its own
+        sub = list(batch)
+        while len(sub) > 1:
+            half = sub[:len(sub) // 2]
+            r1, _, e1 = vlib.run_lines([exe], [lines[i] for i in half], timeout=600, env=env0)
+            sub = half if (r1 != 0 and "LeakSanitizer" in e1) else sub[len(sub) // 2:]
+        r1, o1, e1 = vlib.run_lines([exe], [lines[sub[0]]], timeout=60, env=env0)
+        found = r1 != 0 and "LeakSanitizer" in e1
+        ctx.violation("m_msg.c loses memory while unpacking (LeakSanitizer): the message object does not own every block "
+                      "it allocated%s" % (": case " + lines[sub[0]][:200] if found else ""),
+                      {"case_line": lines[sub[0]] if found else None, "stderr": (e1 if found else stderr)[-3000:],
+                       "impl_output": o1[0][:500] if o1 else ""}, found_input=found)
+        return
     if rc != 0 or len(impl_b) != len(batch):
         idx = batch[min(len(impl_b), len(batch) - 1)]
         ctx.violation("m_msg.c aborts under ASan/UBSan (read outside the received buffer or write outside the message "
@@ -554,7 +581,7 @@ def run(ctx):
     # cases where the faithful model predicts a write beyond a member: one process each, no destroy
     asan_seen = None
     for i in fault_idx[:60]:
-        rcf, outf, errf = vlib.run_lines([exe, "nodestroy"], [lines[i]], timeout=60, env=env0)
+        rcf, outf, errf = vlib.run_lines([exe, "nodestroy"], [lines[i]], timeout=60, env=env_nl)
         if rcf != 0 or not outf:
             m = re.search(r"(heap-buffer-overflow|stack-buffer-overflow|SEGV|runtime error)[^\n]*", errf)
             wr = re.search(r"(WRITE|READ) of size \d+", errf)
@@ -607,6 +634,8 @@ def run(ctx):
                 want = [int(m[1])] + [int(x) for x in m[2].split(",")[:-1]]
                 ok = nums == want
             bad += 0 if ok else 1
+            if not ok:
+                ctx.notes.append("cross-check disagreement: case %s coq=%s oracle=%s" % (lines[i][:300], r[:300], mod[i][:300]))
         ctx.cov["extraction_crosscheck"] = {"cases": len(samp), "disagreements": bad}
         if bad:
             ctx.violation("extracted oracle disagrees with vm_compute on %d sample cases" % bad,
@@ -614,6 +643,10 @@ def run(ctx):
     # verdict
     if direct_fail:
         k = asan_seen if asan_seen is not None else 0
+        for j, x in enumerate(direct_fail):         # prefer the documented replay when it is among the failures
+            if x[4] == "d2-replay" and x[3]:
+                k = j
+                break
         l, o, why, errtxt, kind = direct_fail[k]
         rep = {"case_line": l, "case_kind": kind, "impl_output": o[:2000], "why": why, "n_failing": len(direct_fail),
                "more": [(x[0][:400], x[1][:300], x[2]) for x in direct_fail[:6] if x[0] != l][:5]}
@@ -622,12 +655,12 @@ def run(ctx):
         c = parse_case(l)
         d2 = is_d2(c)
         if d2:
-            if True:
-                rep["finding_key"] = "D2-addr-len-unbounded"
-                rep["explanation"] = ("DEC_RSP body with addr_len = %d > sizeof (m->addr) = 4: _msg_unpack copies addr_len bytes "
+            rep["finding_key"] = "D2-addr-len-unbounded"
+            rep["explanation"] = ("DEC_RSP body with addr_len = %d > sizeof (m->addr) = 4: _msg_unpack copies addr_len bytes "
                                       "into the 4-byte member (m_msg.c, DEC_RSP case, the _copy into &m->addr has no bound "
-                                      "check); proposed repair: seeded/fixes/D2-addr-len-bound.diff; Coq: "
-                                      "C14_addr_unguarded_refuted" % d2)
+                                      "check, defect D2); the repair is the line `else if (m->addr_len > sizeof (m->addr)) ;` "
+                                      "in front of that copy (reverse patch: seeded/fixes/D2-reverted.diff); Coq: "
+                                      "C14_addr_unguarded_refuted, C14_any_larger_bound_refuted" % d2)
         ctx.violation("%s: case %s -> %s (%d failing cases)" % (why, l[:160], o[:160], len(direct_fail)), rep)
     elif mismatches:
         l, a, b = mismatches[0]
